@@ -437,7 +437,7 @@ func (cs *ContractSet) loadFile(path string) error {
 				case "hint":
 					body = parseLabel(body)
 					wh := "back"
-					if label == "head" || label == "back" {
+					if label == "head" || label == "back" || label == "entry" {
 						wh = label
 					}
 					c, err := mk("hint", body)
